@@ -569,4 +569,41 @@ theorem semaphore_library_instance {progs : List (List SRead)} {s : SSt} (h : SR
     s.holders ≤ 3 ∧ (s.allTerminal = false → ∃ i ev s', sstep s i = some (ev, s') ∧ ev ≠ .wait) :=
   ⟨(semaphore_bound' h).2.2, semaphore_deadlock_free' generated_consts_match'.2.2.2.2 h⟩
 
+
+/-! ## Phase 6: typed keys — the lock slot is a function of the entry only if `str()` respects the inner cacher's key equality -/
+
+/-- if keys that the inner cacher treats as one entry (`ident`) always get one lock slot (`slotsRespectEq`), the slots the code computes
+(`slotOf h r` = hash of `str(key)`) are given by ONE key→index map on entries, `idxOf h reps` — so the real system on these keys is an
+instance of the transition system and every theorem above applies to it -/
+theorem typed_keys_slot_function_partial {h : Nat → Nat} {reps : List KeyRep} (hr : slotsRespectEq h reps = true) :
+    ∀ r ∈ reps, idxOf h reps r.ident = slotOf h r := idxOf_slot' hr
+
+/-- … in particular mutual exclusion in terms of the slots the code computes: while a caller holds the write lock for the entry of key `a`
+(populate / remove), no key `b` in use that any other caller reads or writes (or that the writer itself reads) has `a`'s slot, hence none is
+`a`'s entry — for every interleaving, any number of callers, any programs -/
+theorem typed_keys_exclusion_partial {h : Nat → Nat} {reps : List KeyRep} (hr : slotsRespectEq h reps = true)
+    {progs : List (List (List Instr))} {s : St} (hs : Reachable (idxOf h reps) progs s)
+    {i j : Nat} {c d : Caller} {a : KeyRep} (ha : a ∈ reps)
+    (hi : s.cs[i]? = some c) (hj : s.cs[j]? = some d) (hne : j ≠ i) (hw : c.pc.writeKey = some a.ident) :
+    ∀ b ∈ reps, (b.ident ∈ d.reads ∨ d.pc.writeKey = some b.ident ∨ b.ident ∈ c.reads) → slotOf h b ≠ slotOf h a ∧ b.ident ≠ a.ident :=
+  typed_keys_exclusion' hr hs ha hi hj hne hw
+
+/-- the hypothesis is satisfiable and non-trivial: `1` and `"1"` (two entries, one text → one slot), `"a"`, `"b"` -/
+example : slotsRespectEq (fun t => t % 7) [⟨0, 0⟩, ⟨1, 0⟩, ⟨2, 5⟩, ⟨3, 12⟩] = true := by decide
+
+/-- the hypothesis is necessary (C19-F4): the keys `1` and `1.0` are ONE entry of a MemoryCacher (`1 == 1.0`, same hash) but have two texts
+("1", "1.0") and so two slots; then no key→index map on entries gives the slots the code uses — the two callers lock different slots for the
+same entry (replayed on the real code: both getters run at the same time) -/
+theorem typed_keys_counterexample :
+    slotsRespectEq id [⟨1, 1⟩, ⟨1, 2⟩] = false ∧
+    ¬ ∃ idx : Nat → Nat, ∀ r ∈ [(⟨1, 1⟩ : KeyRep), ⟨1, 2⟩], idx r.ident = slotOf id r := typed_keys_counterexample'
+
+
+/-- translator obligation (phase 6): every subscript of and membership test on MemoryCacher's dict, as extracted from the current source, uses
+the key ITSELF — the inner cacher's notion of "one entry" is the key's own equality, which is what `KeyRep.ident` stands for in
+`typed_keys_slot_function_partial`. Storing under `str(key)`, `repr(key)`, … breaks this obligation. -/
+theorem generated_memory_key_identity :
+    Generated.memoryKeysExtracted = true ∧ Generated.memoryKeyExprs ≠ [] ∧ ∀ e ∈ Generated.memoryKeyExprs, e = modelMemoryKeyExpr :=
+  generated_memory_key_identity'
+
 end Coba.C19
